@@ -107,7 +107,7 @@ PROPS.update({
               'runtime cases (exhaustive n<=3 schedules, random n<=8 with R/W declarations, conflict families, wide); monitor: in-flight intervals of every conflicting pair; non-trivial = the graph has a conflicting pair',
               lambda c: _has_conflict(c), 'conflicting functions are joined by a path of the built graph (C11) and a function starts only after its predecessors ended',
               relevant=lambda c: c.kind == 'S' or _cfg(c).get('api') in ('foreach', 'tryforeach'), scope=RT_SCOPE),
-    'C02': rt(['X', 'S'], {'e': _e_sorted}, rr.mon_c02,
+    'C02': rt(['X', 'S'], {'e': _e_sorted}, rr.mon_c02_full,
               'runtime cases, all 8 internal paths + control, both orders; monitor: End(dependency) before Start on the implementation trace; non-trivial = graph with at least one user edge',
               lambda c: bool(c.rcase().ref.edges), 'start_after_preds invariant of the scheduler model + user edges kept by build()', scope=RT_SCOPE),
     'C03': rt(['X', 'S'], {'e': _e_sorted, 'O': _o_canon}, rr.mon_c03,
@@ -138,12 +138,12 @@ PROPS.update({
     'C10': rt(['X'], {'e': _e_sorted}, rr.mon_c10,
               'call-API cases with limit in {0,1,2,3,4}; monitor: max simultaneous in-flight user futures',
               lambda c: _cfg(c).get('lim', '0') != '0' or _cfg(c).get('api') in ('fold', 'tryfold'), 'limit_respected, seq_one', scope=RT_SCOPE),
-    'C15': rt(['H'], {'*': EXACT}, rr.mon_all_single,
-              'histories of 2-4 runs (all APIs, shared and mut, streams; completed, interrupted, failed, dropped midway) on ONE graph value; every run compared with the model run from a fresh initial state; single-run monitors on each run',
+    'C15': rt(['H'], {'*': EXACT}, rr.mon_c15,
+              'histories of 2-4 runs (all APIs, shared and mut, streams; completed, interrupted, failed, dropped midway) on ONE graph value; every run compared with the model run from a fresh initial state; monitor: every later run is repeated by the harness on a freshly built graph and must give identical observations (implementation against implementation)',
               lambda c: True, 'frame theorem: a run only reads the graph value (partial: decisive part is the differential history check)',
               assumptions=['the borrow checker (rustc) is trusted for the &self paths']),
-    'C20': rt(['Y'], {'*': EXACT}, rr.mon_all_single,
-              'pairs of call-API runs on one graph, interleaved in one task; each compared with the single-run model and checked by the single-run monitors',
+    'C20': rt(['Y'], {'*': EXACT}, rr.mon_c20,
+              'pairs of call-API runs on one graph, interleaved in one task; each compared with the single-run model; monitor: each run is repeated alone on its own freshly built graph with its own events and must give identical observations',
               lambda c: True, 'independence theorem (partial, as C15)',
               assumptions=['interleaving in one task only; runs on different OS threads are not exercised']),
 })
@@ -188,6 +188,17 @@ def run_monitor(spec, c):
     return spec['monitor'](c.rcase())
 
 
+# Properties whose subject is not the construction of the edge list: for a case in which the
+# implementation built another edge list than the model's build(), their correspondence runs the
+# model on the implementation's edge list (Builder.with_edges; OverrideFacts.v shows the runtime
+# theorems apply to it), so that a change to the builder does not break their tie.  C01, C06, C11,
+# C12 (about the construction itself), C13, C16, C18 (independent of Data edges) stay strict.
+MODULAR = ('C02', 'C03', 'C04', 'C05', 'C07', 'C08', 'C09', 'C10', 'C14', 'C15', 'C17', 'C20')
+for _p in MODULAR:
+    if _p in PROPS:
+        PROPS[_p]['modular'] = True
+
+
 def project(spec, tag, v):
     """-> canonical value to compare, or None if the tag is outside this property's projection"""
     if spec.get('tags') is not None:
@@ -195,6 +206,8 @@ def project(spec, tag, v):
             return None
         f = spec.get('tagproj', {}).get(tag)
         return f(v) if f else v
+    if re.match(r'^f([0-9]+|A|B)\.', tag):
+        return None      # oracle runs on a fresh graph (C15/C20 monitors), not printed by the model
     proj = spec['proj']
     base = re.sub(r'^(r[0-9]+\.|A\.|B\.)', '', tag)
     base = re.sub(r'^e[0-9]+$', 'e', base)
@@ -208,6 +221,11 @@ def evaluate_bundle(prop, spec, bdir, meta):
                compared_obs=0, samples=[], families={}, rule=spec['rule'], error=meta.get('error'))
     ic, iobs, order, stats = vlib.parse_bundle(os.path.join(bdir, 'impl.txt'))
     mc, mobs, _, _ = vlib.parse_bundle(os.path.join(bdir, 'model.txt'))
+    gobs = {}
+    gpath = os.path.join(bdir, 'model_g.txt')
+    if spec.get('modular') and os.path.exists(gpath):
+        _, gobs, _, _ = vlib.parse_bundle(gpath)
+    res['modular_cases'] = 0
     if '_ERR' in mobs:
         res['error'] = (res['error'] or '') + ' model driver errors: ' + '; '.join(list(mobs['_ERR'].values())[:3])
     seen = set()
@@ -222,6 +240,9 @@ def evaluate_bundle(prop, spec, bdir, meta):
         fam = c.family.split('-')[0]
         res['families'][fam] = res['families'].get(fam, 0) + 1
         mo = mobs.get(cid)
+        if cid in gobs and 'GX' not in gobs[cid]:
+            mo = gobs[cid]          # model run on the edge list the implementation built
+            res['modular_cases'] += 1
         if mo is None:
             res['mismatches'].append(dict(tag='(case)', impl='present', model='missing', case_line=c.line))
         else:
@@ -266,6 +287,7 @@ def evaluate_bundle(prop, spec, bdir, meta):
 def merge_results(res, extra):
     for k in ('evaluations', 'distinct_nontrivial', 'compared_cases', 'compared_obs'):
         res[k] += extra[k]
+    res['modular_cases'] = res.get('modular_cases', 0) + extra.get('modular_cases', 0)
     res['mismatches'] += extra['mismatches']
     res['monitor_failures'] += extra['monitor_failures']
     res['mismatches_total'] = res.get('mismatches_total', 0) + extra.get('mismatches_total', 0)
